@@ -54,7 +54,31 @@ class C11(ValueCheck):
                           special=lambda ch: st.builds(lambda f, a: [f, a], st.sampled_from(["sin", "exp", "sqrt"]), ch))
         val = gen.weighted([(4, num), (3, s), (3, simple), (1, st.sampled_from([["integer", 0], ["integer", 1], ["integer", -1]]))])
         m = st.lists(st.tuples(st.sampled_from(SYMS), val), min_size=1, max_size=3, unique_by=lambda t: t[0]).map(lambda ps: [list(p) for p in ps])
-        return st.fixed_dictionaries({"e": e, "map": m, "envs": gen.envs(names=SYMS + ["w"], n=3)})
+        general = st.fixed_dictionaries({"e": e, "map": m, "envs": gen.envs(names=SYMS + ["w"], n=3)})
+
+        # expressions that hold a compound subtree T together with its own image sigma(T) under a map whose images
+        # mention keys (swap, cycle, shift): the shape on which "an image is final" shortcuts of the cache go wrong
+        def rsubst(r, mp):
+            if isinstance(r, list):
+                if r[:1] == ["symbol"] and r[1] in mp:
+                    return mp[r[1]]
+                return [rsubst(x, mp) for x in r]
+            return r
+        X, Y, Z = ["symbol", "x"], ["symbol", "y"], ["symbol", "z"]
+        maps = st.sampled_from([[["x", Y], ["y", X]], [["x", Y], ["y", Z], ["z", X]], [["x", ["add", X, ["integer", -1]]]],
+                                [["x", ["mul", ["integer", 2], X]]], [["x", ["add", X, Y]], ["y", X]], [["y", ["pow", Y, ["integer", 2]]]]])
+        small = gen.tree(gen.weighted([(2, num), (6, gen.sym(["x", "y"]))]), unary=("sin", "cos", "exp"), binary=("add", "mul"), max_leaves=3)
+        T = st.builds(lambda f, a: [f, a], st.sampled_from(["sin", "cos", "exp", "tan", "sinh"]), small)
+
+        def mk(t, mp, c1, c2, rest, order):
+            img = rsubst(t, {k: v for k, v in mp})
+            a, b = ["mul", c1, t], ["mul", c2, img]
+            body = ["add", a, b] if order else ["add", b, a]
+            return {"e": ["add", body, rest] if rest is not None else body, "map": mp}
+        coefs = st.integers(1, 4).map(lambda n: ["integer", n])
+        image = st.builds(mk, T, maps, coefs, coefs, st.one_of(st.none(), small), st.booleans()).flatmap(
+            lambda d: st.fixed_dictionaries({"e": st.just(d["e"]), "map": st.just(d["map"]), "envs": gen.envs(names=SYMS + ["w"], n=3)}))
+        return st.one_of(general, general, general, image)
 
     def judge(self, case):
         rec, mp_, envs = case["e"], case["map"], case["envs"]
@@ -81,7 +105,7 @@ class C11(ValueCheck):
         mapl = ["list"] + [["list", ["symbol", k], v] for k, v in mp_]
         absent = ["list", ["list", ["symbol", "w"], ["integer", 7]]]
         ident = ["list"] + [["list", ["symbol", k], ["symbol", k]] for k, _ in mp_]
-        stmts = [["let", rec]]
+        stmts = [rec]
         idx = {}
         for op in SUBS_OPS:
             for cache in (True, False):
@@ -130,12 +154,35 @@ class C11(ValueCheck):
         for i, what in ((i_abs, "subs of a symbol that does not occur"), (i_id, "subs with the identity map"),
                         (i_abs2, "xreplace of a symbol that does not occur")):
             if res[i] is False:
-                raise Violation("%s: %s returned an expression that is not eq to the input" % (engine.sx(rec)[:300], what), {"recipe": rec})
+                raise Violation("%s: %s returned an expression that is not eq to the input" % (engine.sx(rec)[:300], what),
+                                {"recipe": rec, "dump": B(res[0])})
         if judged:
             if any(count_sym(rec, k) >= 2 and v[0] != "symbol" for k, v in mp_):
                 self.nontriv((rec, mp_))
                 self.cls("nontrivial")
             self.sample({"e": engine.sx(rec)[:200], "map": {k: engine.sx(v)[:80] for k, v in mp_}})
+
+
+def _pow_of_reciprocal(d):
+    """a Mul factor (b**-1)**q or a Pow whose base is b**-1: the unevaluated form Mul::power_num leaves behind"""
+    if isinstance(d, list):
+        if d[:1] == ["Mul"] and len(d) == 3:
+            for b, e in d[2]:
+                if b[:1] == ["Pow"] and b[2] == ["Integer", "-1"] and e[:1] in (["Rational"], ["RealDouble"], ["Symbol"]):
+                    return True
+        if d[:1] == ["Pow"] and d[1][:1] == ["Pow"] and d[1][2] == ["Integer", "-1"]:
+            return True
+        return any(_pow_of_reciprocal(x) for x in d)
+    return False
+
+
+def m_pow_of_reciprocal_rebuilt(case, v):
+    """KF-C11-01 (root cause KF-C16-02): Mul::power_num stores (b**-1)**q without passing it through pow(); any
+    rebuild of the tree (even an identity / absent-symbol substitution) folds it to b**-q, which is not eq to the input"""
+    return "not eq to the input" in v.msg and _pow_of_reciprocal((v.detail or {}).get("dump"))
+
+
+C11.matchers = {"pow_of_reciprocal_rebuilt": m_pow_of_reciprocal_rebuilt}
 
 
 if __name__ == "__main__":
